@@ -24,16 +24,21 @@ PROPS_PART = {
             dict(harness='full_class_mnemonic_any_case', module='codes', kind='complete', bound='3 mnemonics x every case mask', tier='quick', what='[C17.mnemonic_ci] CLASS mnemonics (FAILS today: D9)'),
             dict(harness='full_qtype_mnemonic_any_case', module='codes', kind='complete', bound='26 mnemonics x every case mask', tier='quick', what='[C17.mnemonic_ci] QTYPE mnemonics incl. the TYPE ones (FAILS today: D9)'),
             dict(harness='full_qclass_mnemonic_any_case', module='codes', kind='complete', bound='6 mnemonics x every case mask', tier='quick', what='[C17.mnemonic_ci] QCLASS mnemonics incl. the CLASS ones (FAILS today: D9)'),
-            dict(harness='full_type_rfc3597_every_value', module='codes', kind='complete', bound='"TYPE" in any case + 1..=6 digits', tier='quick', what='[C17.rfc3597] TYPEn parses to n for every n <= 65535 (leading zeros too) and fails above, via Type and Qtype'),
-            dict(harness='full_class_rfc3597_every_value', module='codes', kind='complete', bound='"CLASS" in any case + 1..=5 digits', tier='quick', what='[C17.rfc3597] CLASSn likewise, via Class and Qclass'),
-            dict(harness='full_type_display_fromstr_roundtrip', module='codes', kind='complete', bound=None, tier='quick', what='[C17.roundtrip] parse(render(Type(v))) == v for all 65536 v (real core::fmt)'),
-            dict(harness='full_class_display_fromstr_roundtrip', module='codes', kind='complete', bound=None, tier='quick', what='[C17.roundtrip] same for Class'),
-            dict(harness='full_qtype_display_fromstr_roundtrip', module='codes', kind='complete', bound=None, tier='quick', what='[C17.roundtrip] same for Qtype'),
-            dict(harness='full_qclass_display_fromstr_roundtrip', module='codes', kind='complete', bound=None, tier='quick', what='[C17.roundtrip] same for Qclass'),
+            dict(harness='full_type_rfc3597_every_value', module='codes', kind='complete', bound='"TYPE" in any case + 1..=6 digits', tier='thorough', what='[C17.rfc3597] TYPEn parses to n for every n <= 65535 (leading zeros too) and fails above, via Type and Qtype'),
+            dict(harness='full_class_rfc3597_every_value', module='codes', kind='complete', bound='"CLASS" in any case + 1..=5 digits', tier='thorough', what='[C17.rfc3597] CLASSn likewise, via Class and Qclass'),
+            dict(harness='full_type_display_fromstr_roundtrip', module='codes', kind='complete', bound=None, tier='thorough', what='[C17.roundtrip] parse(render(Type(v))) == v for all 65536 v (real core::fmt)'),
+            dict(harness='full_class_display_fromstr_roundtrip', module='codes', kind='complete', bound=None, tier='thorough', what='[C17.roundtrip] same for Class'),
+            dict(harness='full_qtype_display_fromstr_roundtrip', module='codes', kind='complete', bound=None, tier='thorough', what='[C17.roundtrip] same for Qtype'),
+            dict(harness='full_qclass_display_fromstr_roundtrip', module='codes', kind='complete', bound=None, tier='thorough', what='[C17.roundtrip] same for Qclass'),
             dict(harness='bnd_class_fromstr_exact_len10', module='codes', kind='bounded', bound='every ASCII string <= 10 octets', tier='thorough', what='Class/Qclass::from_str(s) equals the reference (mnemonic | CLASSnnn | error) - exactness (needs the D9 fix)'),
             dict(harness='bnd_type_fromstr_exact_len10', module='codes', kind='bounded', bound='every ASCII string <= 10 octets', tier='thorough', what='Type/Qtype::from_str(s) equals the reference - exactness (needs the D9 fix)'),
         ],
         cex={},
+        native=[dict(bin='bnd_codes_text', when='quick',
+                     bound='exhaustive: all 65536 values of TYPE, CLASS, QTYPE, QCLASS; all 2^n upper/lower-case spellings of every mnemonic the crate prints for a value or accepts '
+                           'from the RFC lists (20 TYPE, 6 QTYPE, 4 CLASS, 3 QCLASS names)',
+                     what='public Display/FromStr of Type, Class, Qtype, Qclass on the native build: Display->FromStr gives the value back; TYPEnnn (Type, Qtype) / CLASSnnn (Class, Qclass) '
+                          'parse to nnn; every mnemonic parses case-insensitively and RFC mnemonics denote the RFC value; no panic. Which strings are rejected is not constrained')],
         unverified=['from_str on non-ASCII strings and on strings longer than 10 octets other than the TYPEnnn/CLASSnnn and mnemonic forms (exactness only; every clause of the property is covered completely)',
                     'Display of Opcode, Rcode, ExtendedRcode (not part of the property)'],
         assumptions=['Kani 0.68 / CBMC 6.11 model the compiled core::fmt and core::num code faithfully'],
@@ -82,6 +87,13 @@ PROPS_PART = {
             'name_text.parse_escape': [('names', 'bnd_name_from_str_matches_reference')],
             'name_builder.finish': [('names', 'bnd_name_from_str_matches_reference')],
         },
+        native=[dict(bin='bnd_name_text', when='quick',
+                     bound='923 names: all of <= 2 labels over 26 labels (case pairs, octets next to the letter ranges, ".", "\\", " ", "*", digits, escape look-alikes, 0x00 0x7f 0x80 0xff, '
+                           '63-octet labels), all of 3 labels over 6 labels, 255-octet names (4 labels / 127 labels) and case variants; one by one and in all 851929 ordered pairs; '
+                           '2053 texts at the limits (63/64-octet labels, 255/256-octet names, relative / empty-label forms, \\DDD for all 1000 three-digit values)',
+                     what='public Name API on the native build vs a reference model over label lists: Display->FromStr gives the identical wire form and the text denotes the labels '
+                          '(RFC 1035 5.1); text acceptance == reference; == iff labels equal ignoring ASCII case; equal names hash alike; cmp == RFC 4034 6.1 canonical order, '
+                          'Equal iff ==; eq_or_subdomain_of == label suffix; labels/len/index/is_root/is_wildcard, superdomain(k), wire_repr_to/from, make_ascii_lowercase; no panic')],
         unverified=['body of unsafe fn new_boxed_name (trusted contract; exercised for real only by the bounded Kani harnesses)',
                     'Display for Label/Name (escaping through core::fmt): only the bounded round-trip harness',
                     'Name::{eq,cmp,hash,eq_or_subdomain_of,superdomain,wire_repr_to,wire_repr_from,index,make_ascii_lowercase}: iterator-adaptor chains, bounded Kani only',
